@@ -1352,6 +1352,27 @@ def det_install(fork):
     uuidgen.uuid4 = det_uuid
     _DET['on'] = True
     _DET['fork'] = fork
+    if os.environ.get('C13_DET_PID') == '1':
+        # additionally: irast.PathId.__hash__ independent of the str hash seed (and of the address of the class)
+        import zlib
+        from edb.ir import pathid
+
+        def stable(x):
+            if isinstance(x, tuple):
+                return tuple(stable(y) for y in x)
+            return str(x)
+
+        def pid_hash(self):
+            if self._hash == -1:
+                pre = pid_hash(self._prefix) if self._prefix is not None else None
+                key = repr((stable(self._norm_path), sorted(self._namespace), pre, self._is_ptr))
+                self._hash = zlib.crc32(key.encode('utf-8'))
+            return self._hash
+        pathid.PathId.__hash__ = pid_hash
+        # ... and pgsql.compiler.enums.PathAspect (a str enum: hash(member) is a str hash); sets of aspects are
+        # iterated when range variables / outputs are registered
+        from edb.pgsql.compiler import enums as pgce
+        pgce.PathAspect.__hash__ = lambda self: zlib.crc32(str(self._value_).encode('utf-8'))
 
 
 def det_reset():
